@@ -19,7 +19,8 @@ EXPLANATION = (
     "only be poisoned by a panic while its guard is live: in ask's guard region no panic entry point, Assert terminator or unwrap/expect "
     "is reachable (crate-local callees has_path/format_cycle_path included transitively) and the deliberate deadlock panic happens only "
     "after the guard was moved into mem::drop; WaitForGuard::drop never unwraps the lock result (a panicking destructor during "
-    "unwinding would abort the process).")
+    "unwinding would abort the process). Dead-letter accounting is part of the framework-wide state: the C13 pairing rule (one record "
+    "call with the right reason on every failing delivery branch) is re-evaluated here.")
 
 
 def run(run):
